@@ -23,10 +23,10 @@ import (
 // specification says the filler emits.
 type FillRow struct {
 	P struct {
-		Total, Current, Refill    int64
-		Req, Avail                int
-		Lbw, Rbw, Fw, Rw, Pw, Tw  int
-		Completed, TipOnComplete  bool
+		Total, Current, Refill   int64
+		Req, Avail               int
+		Lbw, Rbw, Fw, Rw, Pw, Tw int
+		Completed, TipOnComplete bool
 	} `json:"p"`
 	NFiller   int  `json:"nFiller"`
 	NRefiller int  `json:"nRefiller"`
